@@ -219,6 +219,9 @@ HllArray<A>* HllArray<A>::newHll(std::istream& is, const A& allocator) {
     uint8_t auxLgIntArrSize = listHeader[4];
     AuxHashMap<A>* auxHashMap = AuxHashMap<A>::deserialize(is, lgK, auxCount, auxLgIntArrSize, comapctFlag, allocator);
     ((Hll4Array<A>*)sketch)->putAuxHashMap(auxHashMap);
+  } else if (tgtHllType == HLL_4 && !comapctFlag) {
+    // an updatable HLL_4 image always carries the (empty) aux area: consume it so that the stream is left at the image end
+    is.ignore(static_cast<std::streamsize>(4) << hll_constants::LG_AUX_ARR_INTS[lgK]);
   }
 
   if (!is.good())
